@@ -140,6 +140,12 @@ def unit_checks(v, est, A, tags, fails, label):
         smax = float(s[0]) if len(s) else 0.0
         if not np.isfinite(est) or est < 0 or est > smax * (1 + 1e-10) + 1e-300:
             fails.append(fail("estimate<=spectral_norm", f"{label}: estimate {est!r} > ||A||_2 = {smax!r}", **tags))
+        # the estimate is the modulus of the Rayleigh quotient v^H A v / v^H v of the RETURNED vector
+        num = O.qmatmul(O.qH(vf), O.qmatmul(A, vf))[0, 0]
+        den = float(np.sum(vf ** 2))
+        rq = float(np.sqrt(np.sum(num ** 2))) / den if den > 0 else 0.0
+        if np.isfinite(est) and abs(est - rq) > 1e-10 * max(smax, 1e-300) + 1e-300:
+            fails.append(fail("estimate=|rayleigh_quotient|", f"{label}: estimate {est!r}, |v^H A v| / v^H v = {rq!r}", **tags))
     return vf
 
 
